@@ -109,6 +109,7 @@ SIM = {"quick": [("MC_sim.cfg", 400, 120)], "thorough": [("MC_sim.cfg", 8000, 16
 TWINS = {"quick": 150, "thorough": 3000}
 
 SPECIFIC = {
+    "C04": ["vectors"],
     "C08": ["vectors", "readersim"],
     "C09": ["shapes", "arenasim"],
     "C19": ["legality"],
